@@ -1060,6 +1060,7 @@ func init() {
 	register("C02", &Prop{
 		Timeout:          30 * time.Second,
 		NoRestartOnPanic: false,
+		Tool:             c02Tool,
 		Setup: func() {
 			verifhook.SetHandler(c02Hook)
 			xPkgOnce.Do(func() { stdlib.AddStdlibPkg("x", "verification harness functions") })
